@@ -29,10 +29,20 @@ impl WaitSlot {
         self.thread
             .set(thread::current())
             .expect("scheduler wait thread registered more than once");
+        #[cfg(grevm_verif)]
+        crate::verif::p1("ws_register", self as *const Self as usize as i64);
     }
 
     pub(super) fn notify(&self) {
+        #[cfg(grevm_verif)]
+        crate::verif::p2(
+            "ws_notify",
+            self as *const Self as usize as i64,
+            self.thread.get().is_some() as i64,
+        );
         if let Some(thread) = self.thread.get() {
+            #[cfg(grevm_verif)]
+            crate::verif::unpark(thread);
             thread.unpark();
         }
     }
@@ -42,15 +52,32 @@ impl WaitSlot {
     /// `Thread::unpark` publishes a token even when it races between the second predicate check
     /// and `park_timeout`, closing the usual check/park lost-wakeup window.
     pub(super) fn wait_while(&self, timeout: Duration, mut blocked: impl FnMut() -> bool) {
+        #[cfg(grevm_verif)]
+        let slot = self as *const Self as usize as i64;
         if !blocked() {
+            #[cfg(grevm_verif)]
+            crate::verif::p2("ws_check1", slot, 0);
             return;
         }
+        #[cfg(grevm_verif)]
+        crate::verif::p2("ws_check1", slot, 1);
 
         // Most scheduler stalls close within one worker timeslice.
         thread::yield_now();
         if blocked() {
+            #[cfg(grevm_verif)]
+            crate::verif::p2("ws_check2", slot, 1);
+            #[cfg(not(grevm_verif))]
             thread::park_timeout(timeout);
+            #[cfg(grevm_verif)]
+            crate::verif::park_timeout(timeout);
+            #[cfg(grevm_verif)]
+            crate::verif::p1("ws_wake", slot);
+            #[cfg(grevm_verif)]
+            return;
         }
+        #[cfg(grevm_verif)]
+        crate::verif::p2("ws_check2", slot, 0);
     }
 }
 
@@ -132,5 +159,29 @@ mod tests {
 
         let ready = AtomicBool::new(true);
         slot.wait_while(Duration::from_secs(1), || !ready.load(Ordering::Acquire));
+    }
+}
+
+/// Differential-driver access (see `crate::verif`).
+#[cfg(grevm_verif)]
+pub mod verif_access {
+    #![allow(missing_docs, missing_debug_implementations, unreachable_pub)]
+    pub struct WaitSlotV(super::WaitSlot);
+    impl WaitSlotV {
+        pub fn new() -> Self {
+            Self(super::WaitSlot::new())
+        }
+        pub fn id(&self) -> i64 {
+            &self.0 as *const super::WaitSlot as usize as i64
+        }
+        pub fn register_current_thread(&self) {
+            self.0.register_current_thread()
+        }
+        pub fn notify(&self) {
+            self.0.notify()
+        }
+        pub fn wait_while(&self, timeout: std::time::Duration, blocked: impl FnMut() -> bool) {
+            self.0.wait_while(timeout, blocked)
+        }
     }
 }
